@@ -10,6 +10,7 @@ is validated by TLC against the reference operators under the property's focus
 from __future__ import annotations
 
 import json
+import logging
 import multiprocessing
 import os
 import random
@@ -162,11 +163,25 @@ def concretise(focus: str, mc: dict, hist: tuple) -> tuple[dict, list]:
 # executing histories on the real code
 
 
+class _Sink(logging.Handler):
+    """Formats every record (so that a broken log call shows) and drops it."""
+
+    def emit(self, record):
+        record.getMessage()
+
+
 def _exec(job):
     init, events, tz = job
     if tz:
         os.environ["TZ"] = tz
         time.tzset()
+    # the library's diagnostics are part of the code under test: every other history runs with the library's logger
+    # at DEBUG (what its own CLI configures), the rest at the default level
+    lib_logger = logging.getLogger("aiomysensors")
+    if not any(isinstance(h, _Sink) for h in lib_logger.handlers):
+        lib_logger.addHandler(_Sink())
+        lib_logger.propagate = False
+    lib_logger.setLevel(logging.DEBUG if (len(events) + len(init.get("nodes", []))) % 2 else logging.WARNING)
     try:
         tr = gwdriver.run_history(init, events)
     except BaseException as err:  # noqa: BLE001 - the harness itself failed
@@ -251,11 +266,11 @@ def random_history(rnd: random.Random, prop: str, length: int) -> tuple[dict, li
                 it = rnd.choice([0, 1, 2, 3, 6, 9, 11, 12, 14, 21, 22, 32, 18, 16, 5, maxint, maxint + 1, wake_t, -1, -15])
             pl = p
             if it == 0:
-                pl = rnd.choice(["57", "0", "100", "7.6", "99.4", "12"] + (["abc", "", "150", "-3", "nan"] if prop == "C03" else []))
+                pl = rnd.choice(["57", "0", "100", "7.6", "99.4", "12"] + (["abc", "", "150", "-3", "nan", "level " * 40] if prop == "C03" else []))
             elif it == 22:
-                pl = rnd.choice(["1", "1111", "0", "300000"] + (["x", ""] if prop in ("C03", "C04") else []))
+                pl = rnd.choice(["1", "1111", "0", "300000"] + (["x", "", "beat " * 50] if prop in ("C03", "C04") else []))
             elif it == 2:
-                pl = rnd.choice(VERSIONS + (["garbage", ""] if prop in ("C03", "C05") else []))
+                pl = rnd.choice(VERSIONS + (["garbage", "", "no version " * 30] if prop in ("C03", "C05") else []))
             nn = 0 if it in (2, 9, 14) else (255 if it == 3 and rnd.random() < 0.7 else n)
             cc = rnd.choice([255, 255, 5]) if it == 3 else 255
             ev = dict(k="recv", n=nn, c=cc, cmd=3, ack=0, t=it, p=pl)
@@ -332,7 +347,7 @@ def version_grid(tier: str) -> list[tuple[dict, list]]:
     probes += [dict(k="recv", n=1, c=255, cmd=4, ack=0, t=t, p="") for t in (0, 5, 6, -1)]
     k = 0
     for major in majors:
-        for minor in range(0, 7):
+        for minor in (0, 1, 2, 3, 4, 5, 6, 10, 12, 15):
             for patch in (None, 0, 1, 2):
                 for build in (None, 0, 7):
                     if patch is None and build is not None:
